@@ -38,6 +38,7 @@ def spec_c13(tier, seed):
             Cond('c13_streamids', 'c_history_small', parts=hist_parts, timeout=300 if q else 900),
             Cond('c13_streamids', 'c_first_ids', timeout=120),
             Cond('c13_streamids', 'c_reject_live_id', timeout=300, parts=[{'k1': k} for k in range(3)]),
+            Cond('c13_streamids', 'c_reject_live_id_fragmented', timeout=300),
             Cond('c13_streamids', 'c_id_available_step', timeout=120),
         ],
         explanation='(a) one real StreamControl.allocate_stream from an arbitrary symbolic state (31-bit current id, '
@@ -46,7 +47,8 @@ def spec_c13(tier, seed):
                     'failure condition; (c) real endpoints: first ids 1/2 and REJECTED on reuse of a live id with '
                     'symbolic 31-bit ids and 4 request types',
         bounds=['(a) |live ids| <= 3, ids and cursor full 31-bit', '(b) quick: W=2 with <=5 operations, W=3 with <=4; thorough: W=2/6 ops, W=3/5 ops, W=4/4 ops; both parities; partitioned by the first 1 (quick) / 2 (thorough) operations',
-                '(c) one peer-opened and one own live stream, ids from {1,3,2^31-1,2,2^31-2}; availability check itself at full width on a symbolic table of <=3 ids'],
+                '(c) one peer-opened and one own live stream, ids from {1,3,2^31-1,2,2^31-2}; availability check itself at full width on a symbolic table of <=3 ids',
+                '(c2) a request arriving in two fragments on id 2 or 4 with the receiver opening its own request (id 2) before / between / after the fragments; 4 request types'],
         outside=['exhaustion at full width (needs 2^30 live streams)', 'more than 3 live ids in the inductive step'],
         functions=['rsocket.stream_control.StreamControl.allocate_stream', 'rsocket.stream_control.StreamControl._increment_stream_id',
                    'rsocket.stream_control.StreamControl.register_stream', 'rsocket.stream_control.StreamControl.finish_stream',
